@@ -73,16 +73,22 @@ where
     C: Collect,
 {
     fn on_register_dispatch(&self, collector: &Dispatch) {
+        #[cfg(feature = "verif-hooks")]
+        __verif_wait(&self.inner, false);
         try_lock!(self.inner.read()).on_register_dispatch(collector);
     }
 
     #[inline]
     fn register_callsite(&self, metadata: &'static Metadata<'static>) -> Interest {
+        #[cfg(feature = "verif-hooks")]
+        __verif_wait(&self.inner, false);
         try_lock!(self.inner.read(), else return Interest::sometimes()).register_callsite(metadata)
     }
 
     #[inline]
     fn enabled(&self, metadata: &Metadata<'_>, ctx: subscribe::Context<'_, C>) -> bool {
+        #[cfg(feature = "verif-hooks")]
+        __verif_wait(&self.inner, false);
         try_lock!(self.inner.read(), else return false).enabled(metadata, ctx)
     }
 
@@ -93,6 +99,8 @@ where
         id: &span::Id,
         ctx: subscribe::Context<'_, C>,
     ) {
+        #[cfg(feature = "verif-hooks")]
+        __verif_wait(&self.inner, false);
         try_lock!(self.inner.read()).on_new_span(attrs, id, ctx)
     }
 
@@ -103,46 +111,64 @@ where
         values: &span::Record<'_>,
         ctx: subscribe::Context<'_, C>,
     ) {
+        #[cfg(feature = "verif-hooks")]
+        __verif_wait(&self.inner, false);
         try_lock!(self.inner.read()).on_record(span, values, ctx)
     }
 
     #[inline]
     fn on_follows_from(&self, span: &span::Id, follows: &span::Id, ctx: subscribe::Context<'_, C>) {
+        #[cfg(feature = "verif-hooks")]
+        __verif_wait(&self.inner, false);
         try_lock!(self.inner.read()).on_follows_from(span, follows, ctx)
     }
 
     #[inline]
     fn event_enabled(&self, event: &Event<'_>, ctx: subscribe::Context<'_, C>) -> bool {
+        #[cfg(feature = "verif-hooks")]
+        __verif_wait(&self.inner, false);
         try_lock!(self.inner.read(), else return false).event_enabled(event, ctx)
     }
 
     #[inline]
     fn on_event(&self, event: &Event<'_>, ctx: subscribe::Context<'_, C>) {
+        #[cfg(feature = "verif-hooks")]
+        __verif_wait(&self.inner, false);
         try_lock!(self.inner.read()).on_event(event, ctx)
     }
 
     #[inline]
     fn on_enter(&self, id: &span::Id, ctx: subscribe::Context<'_, C>) {
+        #[cfg(feature = "verif-hooks")]
+        __verif_wait(&self.inner, false);
         try_lock!(self.inner.read()).on_enter(id, ctx)
     }
 
     #[inline]
     fn on_exit(&self, id: &span::Id, ctx: subscribe::Context<'_, C>) {
+        #[cfg(feature = "verif-hooks")]
+        __verif_wait(&self.inner, false);
         try_lock!(self.inner.read()).on_exit(id, ctx)
     }
 
     #[inline]
     fn on_close(&self, id: span::Id, ctx: subscribe::Context<'_, C>) {
+        #[cfg(feature = "verif-hooks")]
+        __verif_wait(&self.inner, false);
         try_lock!(self.inner.read()).on_close(id, ctx)
     }
 
     #[inline]
     fn on_id_change(&self, old: &span::Id, new: &span::Id, ctx: subscribe::Context<'_, C>) {
+        #[cfg(feature = "verif-hooks")]
+        __verif_wait(&self.inner, false);
         try_lock!(self.inner.read()).on_id_change(old, new, ctx)
     }
 
     #[inline]
     fn max_level_hint(&self) -> Option<LevelFilter> {
+        #[cfg(feature = "verif-hooks")]
+        __verif_wait(&self.inner, false);
         try_lock!(self.inner.read(), else return None).max_level_hint()
     }
 
@@ -159,6 +185,8 @@ where
         // actually point to the global static singleton `NoneLayerMarker`,
         // rather than to a field inside the lock.
         if id == TypeId::of::<subscribe::NoneLayerMarker>() {
+            #[cfg(feature = "verif-hooks")]
+            __verif_wait(&self.inner, false);
             return try_lock!(self.inner.read(), else return None).downcast_raw(id);
         }
 
@@ -175,11 +203,15 @@ where
 {
     #[inline]
     fn callsite_enabled(&self, metadata: &'static Metadata<'static>) -> Interest {
+        #[cfg(feature = "verif-hooks")]
+        __verif_wait(&self.inner, false);
         try_lock!(self.inner.read(), else return Interest::sometimes()).callsite_enabled(metadata)
     }
 
     #[inline]
     fn enabled(&self, metadata: &Metadata<'_>, ctx: &subscribe::Context<'_, C>) -> bool {
+        #[cfg(feature = "verif-hooks")]
+        __verif_wait(&self.inner, false);
         try_lock!(self.inner.read(), else return false).enabled(metadata, ctx)
     }
 
@@ -190,6 +222,8 @@ where
         id: &span::Id,
         ctx: subscribe::Context<'_, C>,
     ) {
+        #[cfg(feature = "verif-hooks")]
+        __verif_wait(&self.inner, false);
         try_lock!(self.inner.read()).on_new_span(attrs, id, ctx)
     }
 
@@ -200,26 +234,36 @@ where
         values: &span::Record<'_>,
         ctx: subscribe::Context<'_, C>,
     ) {
+        #[cfg(feature = "verif-hooks")]
+        __verif_wait(&self.inner, false);
         try_lock!(self.inner.read()).on_record(span, values, ctx)
     }
 
     #[inline]
     fn on_enter(&self, id: &span::Id, ctx: subscribe::Context<'_, C>) {
+        #[cfg(feature = "verif-hooks")]
+        __verif_wait(&self.inner, false);
         try_lock!(self.inner.read()).on_enter(id, ctx)
     }
 
     #[inline]
     fn on_exit(&self, id: &span::Id, ctx: subscribe::Context<'_, C>) {
+        #[cfg(feature = "verif-hooks")]
+        __verif_wait(&self.inner, false);
         try_lock!(self.inner.read()).on_exit(id, ctx)
     }
 
     #[inline]
     fn on_close(&self, id: span::Id, ctx: subscribe::Context<'_, C>) {
+        #[cfg(feature = "verif-hooks")]
+        __verif_wait(&self.inner, false);
         try_lock!(self.inner.read()).on_close(id, ctx)
     }
 
     #[inline]
     fn max_level_hint(&self) -> Option<LevelFilter> {
+        #[cfg(feature = "verif-hooks")]
+        __verif_wait(&self.inner, false);
         try_lock!(self.inner.read(), else return None).max_level_hint()
     }
 }
@@ -272,12 +316,16 @@ impl<T> Handle<T> {
             kind: ErrorKind::CollectorGone,
         })?;
 
+        #[cfg(feature = "verif-hooks")]
+        __verif_wait(&inner, true);
         let mut lock = try_lock!(inner.write(), else return Err(Error::poisoned()));
         f(&mut *lock);
         // Release the lock before rebuilding the interest cache, as that
         // function will lock the new subscriber.
         drop(lock);
 
+        #[cfg(feature = "verif-hooks")]
+        tracing_core::__verif::point("reload.gap(unlock->rebuild)");
         callsite::rebuild_interest_cache();
 
         // If the `log` crate compatibility feature is in use, set `log`'s max
@@ -307,6 +355,8 @@ impl<T> Handle<T> {
         let inner = self.inner.upgrade().ok_or(Error {
             kind: ErrorKind::CollectorGone,
         })?;
+        #[cfg(feature = "verif-hooks")]
+        __verif_wait(&inner, false);
         let inner = try_lock!(inner.read(), else return Err(Error::poisoned()));
         Ok(f(&*inner))
     }
@@ -317,6 +367,21 @@ impl<T> Clone for Handle<T> {
         Handle {
             inner: self.inner.clone(),
         }
+    }
+}
+
+/// Verification hook: a scheduling point before acquiring the reload lock,
+/// enabled only while the real lock could be taken without blocking.
+#[cfg(feature = "verif-hooks")]
+fn __verif_wait<T>(lock: &RwLock<T>, write: bool) {
+    if write {
+        tracing_core::__verif::wait_until("reload.inner.write", &|| {
+            !matches!(lock.try_write(), Err(std::sync::TryLockError::WouldBlock))
+        });
+    } else {
+        tracing_core::__verif::wait_until("reload.inner.read", &|| {
+            !matches!(lock.try_read(), Err(std::sync::TryLockError::WouldBlock))
+        });
     }
 }
 
